@@ -78,6 +78,35 @@ def run_history(case, props=None):
                 pass
             except Exception as ex:
                 out.append(('C09', f'get_cell{(x, y, z)} outside raised {type(ex).__name__}, not IndexError'))
+    elif kind == 'relook':
+        # C09 over a history: look a cell up, write to the returned row / update the table in place, look it up again
+        import warnings
+        cells = [(x, y, z) for z, y, x in itertools.product(range(d), range(h), range(w))][:6]
+        env.add_cell_component('c', [100 + i for i in range(ncells)])
+        for (x, y, z) in cells:
+            i = oracle_id(x, y, z, W, H, D)
+            try:
+                row = env.get_cell(x, y, z)
+                with warnings.catch_warnings():
+                    warnings.simplefilter('ignore')
+                    try:
+                        row['c'] = -1          # the caller's row object is the caller's business
+                        row['pos'] = (9, 9, 9)
+                    except Exception:
+                        pass
+                again = env.get_cell(x, y, z)
+                if tuple(again['pos']) != (x, y, z) or int(again['c']) != 100 + i:
+                    out.append(('C09', f'get_cell{(x, y, z)} after writing to the row returned earlier: pos={again["pos"]} '
+                                       f'c={again["c"]}, the table holds pos={(x, y, z)} c={100 + i}'))
+                env.cells.at[i, 'c'] = 500 + i     # in-place update through the documented table
+                third = env.get_cell(x, y, z)
+                if int(third['c']) != 500 + i:
+                    out.append(('C09', f'get_cell{(x, y, z)} after an in-place table update returns c={third["c"]}, the '
+                                       f'table holds {500 + i}'))
+            except Exception as ex:
+                out.append(('C09', f'relook {(x, y, z)} on {wk} {W, H, D} raised {type(ex).__name__}: {ex}'))
+            if len(out) > 3:
+                break
     elif kind == 'nbr':
         mode, cx, cy, cz, radius, incl, rep = case[5:12]
         centre_t = (cx, cy, cz)
@@ -210,6 +239,8 @@ def histories(seed, budget, prop='C09'):
     if prop == 'C09':
         for s in SHAPES:
             yield ('ids',) + s
+        for s in [('line', 3, 0, 0), ('grid', 2, 3, 0), ('discrete', 2, 0, 3), ('discrete', 2, 2, 2)]:
+            yield ('relook',) + s
         for _ in range(budget // 20):
             yield ('ids', 'discrete', rng.randint(0, 6), rng.randint(0, 6), rng.randint(0, 6))
     elif prop == 'C10':
@@ -237,3 +268,6 @@ def histories(seed, budget, prop='C09'):
             for a, b in itertools.permutations(srcs, 2):
                 yield ('cells',) + s + ([('add', 'p', a), ('mutate', 'p'), ('add', 'q', b), ('mutate', 'q'), ('remove', 'zz'),
                                          ('remove', 'p'), ('add', 'r', a), ('remove', 'q'), ('remove', 'q')],)
+            for a, b in itertools.permutations(srcs, 2):
+                # the same name added again replaces the component (one column, the new values)
+                yield ('cells',) + s + ([('add', 'p', a), ('add', 'q', a), ('add', 'p', b), ('remove', 'p'), ('remove', 'p')],)
